@@ -32,3 +32,8 @@ Definition tans_eqb (a b : tans) : bool :=
 Definition tcheck (c : state * list (tqry * tans)) : bool :=
   forallb (fun qe => tans_eqb (run_tq (fst c) (fst qe)) (snd qe)) (snd c).
 Definition tanswers (c : state * list (tqry * tans)) : list tans := map (fun qe => run_tq (fst c) (fst qe)) (snd c).
+
+(* several snapshots of one evolving graph, each with its queries (histories interleaving
+   mutations and traversals) *)
+Definition tcheck_phases (l : list (state * list (tqry * tans))) : bool := forallb tcheck l.
+Definition tanswers_phases (l : list (state * list (tqry * tans))) : list (list tans) := map tanswers l.
